@@ -1,1 +1,1146 @@
-//! rtrsim — shared helper (see DESIGN.md section 2); filled in by the module that owns it.
+//! rtrsim — in-memory RTR test bench shared by C06 and C08.
+//!
+//! # API
+//!
+//! **Plain payload model** (serde-able, no library types inside):
+//! * [`Item`] — `V4`/`V6` route origin (address, length, resolved max-len,
+//!   ASN), `Key` (SKI, ASN, key info bytes), `Aspa` (customer, providers).
+//!   `Item::canonical()` clears host bits and clamps lengths so that the value
+//!   is inside the library's documented input domain; `Item::to_payload()`
+//!   builds the library value, `Item::from_payload()` reads one back through
+//!   the public fields/accessors; `Item::min_version()` is 0/1/2.
+//! * [`Data`] — a payload set: `set` (origins + router keys, set semantics) and
+//!   `aspas` (customer → providers). `announce`/`withdraw`, `restricted(v)`
+//!   (payload types carried by protocol version `v`), `items()`,
+//!   `diff_to(new)` (minimal announce/withdraw list).
+//! * [`Delta`] / [`apply_delta`] — source updates: `Add`, `Remove(pick)`,
+//!   `ReplaceProviders(pick, providers)`, `Clear`, `Bulk(items)`.
+//!
+//! **Reference source** — [`RefSource`] implements `rtr::server::PayloadSource`
+//! over a history of [`Snapshot`]s (`serial`, `data`), oldest first, last =
+//! current. `RefSource::new(session, start_serial, data, retention, timing)`;
+//! `update(&[Delta], Option<timing>)` appends a snapshot with serial+1
+//! (wrapping); `diff(state)` answers only for the same session and a serial
+//! among the last `retention` snapshots before the current one (or the current
+//! one: empty diff) — otherwise `None` (Cache Reset); `arm(at, deltas)` arms a
+//! *mid-response update* that is applied by the Set/Diff iterator handed to the
+//! server when it reaches item `at` (or its end), i.e. between `diff()/full()`
+//! and `timing()`/End of Data; `fire_armed()` applies a still-armed update.
+//! `set_ready`, `set_flip` (iteration order), `current()`, `snapshot_at(serial)`,
+//! `back(n)`, `session()`, `timing()`, `stats()`.
+//!
+//! **Recording target** — [`RecTarget`] implements `rtr::client::PayloadTarget`
+//! and logs one [`ApplyRec`] `{reset, items: [(announce, Item)], timing}` per
+//! `apply`; [`apply_rec`] replays a record onto a [`Data`] model.
+//!
+//! **Sockets** — [`mem_pair(cap_to_server, cap_to_client)`] returns
+//! `(server_end, client_end, ctl)`: two [`MemEnd`]s implementing `AsyncRead +
+//! AsyncWrite + Socket` over two bounded byte queues (a full queue parks the
+//! writer, an empty one parks the reader, dropping an end gives EOF / broken
+//! pipe) and a [`MemCtl`] handle for the harness: `feed(bytes)` (chunk delivery
+//! towards the server end, ignores the capacity), `close_to_server()`,
+//! `take_output()` / `pending_to_client()`, `consumed_by_server()`,
+//! `server_reads()` (log of `(offset, wanted, got)` per successful server
+//! read), `ops()` (count of all poll_read/poll_write calls — the deterministic
+//! turn counter), `set_budget(n)` / `exhausted()` (after `n` more socket
+//! operations every operation fails with an error and the flag is set),
+//! `server_idle()`, `server_gone()`, `updates()` (`Socket::update` calls seen).
+//! [`settle(&ctl, max_turns)`] yields to the scheduler until the server
+//! connection task is parked reading an empty socket (or parked writing into a
+//! full one, or gone) for two consecutive turns without any socket operation;
+//! `Err` after `max_turns` (deterministic turn counter, no clock).
+//! [`CapSock`] wraps the client end: it records the version of every query the
+//! client writes and answers queries whose version exceeds `cap` locally with
+//! an RFC 8210 "Unsupported Protocol Version" Error PDU (the version-cap proxy
+//! of DESIGN C06); state is visible through the shared [`CapInfo`].
+//!
+//! **Runtime** — [`block_on(paused, fut)`] runs a future on a fresh
+//! `current_thread` tokio runtime (time enabled, optionally paused).
+//!
+//! **Independent wire code** — [`parse_pdus`] splits server output into
+//! [`RawPdu`]s with per-type length checks written from RFC 8210 /
+//! draft-ietf-sidrops-8210bis (no use of `rtr::pdu`); accessors
+//! `payload_item()`, `serial()`, `timing()`, `error()`; encoders
+//! [`enc_header`], [`enc_serial_query`], [`enc_reset_query`], [`enc_error`].
+//!
+//! **Strategies** — `strat::item()` (small colliding universe + boundary
+//! values, canonical), `strat::delta()`, `strat::timing()` (RFC 8210 ranges).
+//!
+//! Measured cost: a fresh runtime + server + connection + a handful of queries
+//! is ~0.3 ms, so a runtime per case is affordable and no runtime is shared
+//! between cases (full isolation, no leftover tasks or timers).
+
+use crate::gen::pick_idx;
+use rpki::resources::addr::{MaxLenPrefix, Prefix};
+use rpki::resources::asn::Asn;
+use rpki::rtr::client::{PayloadError, PayloadTarget, PayloadUpdate};
+use rpki::rtr::payload::{Action, Payload, PayloadRef, Timing};
+use rpki::rtr::pdu::{ProviderAsns, RouterKeyInfo};
+use rpki::rtr::server::{PayloadDiff, PayloadSet, PayloadSource, Socket};
+use rpki::rtr::state::{Serial, State};
+use serde::{Deserialize, Serialize};
+use std::collections::{BTreeMap, BTreeSet, VecDeque};
+use std::future::Future;
+use std::io;
+use std::net::{IpAddr, Ipv4Addr, Ipv6Addr};
+use std::pin::Pin;
+use std::sync::{Arc, Mutex};
+use std::task::{Context, Poll, Waker};
+use tokio::io::{AsyncRead, AsyncWrite, ReadBuf};
+
+pub type Tm = (u32, u32, u32);
+
+//------------ Item -----------------------------------------------------------
+
+#[derive(Clone, Debug, PartialEq, Eq, PartialOrd, Ord, Hash, Serialize, Deserialize)]
+pub enum Item {
+    V4 { addr: u32, len: u8, max: u8, asn: u32 },
+    V6 { hi: u64, lo: u64, len: u8, max: u8, asn: u32 },
+    Key { ski: [u8; 20], asn: u32, info: Vec<u8> },
+    Aspa { customer: u32, providers: Vec<u32> },
+}
+
+impl Item {
+    /// Brings the value into the documented input domain.
+    pub fn canonical(self) -> Item {
+        match self {
+            Item::V4 { addr, len, max, asn } => {
+                let len = len.min(32);
+                let mask = if len == 0 { 0 } else { u32::MAX << (32 - len as u32) };
+                Item::V4 { addr: addr & mask, len, max: max.clamp(len, 32), asn }
+            }
+            Item::V6 { hi, lo, len, max, asn } => {
+                let len = len.min(128);
+                let v = ((hi as u128) << 64) | lo as u128;
+                let mask = if len == 0 { 0 } else { u128::MAX << (128 - len as u32) };
+                let v = v & mask;
+                Item::V6 { hi: (v >> 64) as u64, lo: v as u64, len, max: max.clamp(len, 128), asn }
+            }
+            Item::Key { ski, asn, mut info } => {
+                if info.is_empty() {
+                    info.push(0x30);
+                }
+                Item::Key { ski, asn, info }
+            }
+            Item::Aspa { customer, mut providers } => {
+                providers.sort_unstable();
+                providers.dedup();
+                if providers.is_empty() {
+                    providers.push(customer.wrapping_add(1));
+                }
+                Item::Aspa { customer, providers }
+            }
+        }
+    }
+
+    /// Lowest protocol version that carries this payload type.
+    pub fn min_version(&self) -> u8 {
+        match self {
+            Item::V4 { .. } | Item::V6 { .. } => 0,
+            Item::Key { .. } => 1,
+            Item::Aspa { .. } => 2,
+        }
+    }
+
+    pub fn to_payload(&self) -> Payload {
+        match self {
+            Item::V4 { addr, len, max, asn } => Payload::origin(
+                MaxLenPrefix::new(Prefix::new_v4(Ipv4Addr::from(*addr), *len).expect("canonical v4"), Some(*max))
+                    .expect("canonical v4 max-len"),
+                Asn::from_u32(*asn),
+            ),
+            Item::V6 { hi, lo, len, max, asn } => Payload::origin(
+                MaxLenPrefix::new(
+                    Prefix::new_v6(Ipv6Addr::from(((*hi as u128) << 64) | *lo as u128), *len).expect("canonical v6"),
+                    Some(*max),
+                )
+                .expect("canonical v6 max-len"),
+                Asn::from_u32(*asn),
+            ),
+            Item::Key { ski, asn, info } => Payload::router_key(
+                (*ski).into(),
+                Asn::from_u32(*asn),
+                RouterKeyInfo::new(info.clone().into()).expect("key info size"),
+            ),
+            Item::Aspa { customer, providers } => Payload::aspa(
+                Asn::from_u32(*customer),
+                ProviderAsns::try_from_iter(providers.iter().map(|p| Asn::from_u32(*p))).expect("provider count"),
+            ),
+        }
+    }
+
+    pub fn from_payload(p: &Payload) -> Item {
+        match p {
+            Payload::Origin(o) => {
+                let len = o.prefix.prefix_len();
+                let max = o.prefix.resolved_max_len();
+                match o.prefix.addr() {
+                    IpAddr::V4(a) => Item::V4 { addr: u32::from(a), len, max, asn: o.asn.into_u32() },
+                    IpAddr::V6(a) => {
+                        let v = u128::from(a);
+                        Item::V6 { hi: (v >> 64) as u64, lo: v as u64, len, max, asn: o.asn.into_u32() }
+                    }
+                }
+            }
+            Payload::RouterKey(k) => {
+                let mut ski = [0u8; 20];
+                ski.copy_from_slice(k.key_identifier.as_slice());
+                Item::Key { ski, asn: k.asn.into_u32(), info: k.key_info.as_slice().to_vec() }
+            }
+            Payload::Aspa(a) => Item::Aspa {
+                customer: a.customer.into_u32(),
+                providers: a.providers.iter().map(|x| x.into_u32()).collect(),
+            },
+        }
+    }
+}
+
+//------------ Data -----------------------------------------------------------
+
+#[derive(Clone, Debug, Default, PartialEq, Eq)]
+pub struct Data {
+    /// Route origins and router keys.
+    pub set: BTreeSet<Item>,
+    /// ASPA: customer -> providers.
+    pub aspas: BTreeMap<u32, Vec<u32>>,
+}
+
+impl Data {
+    pub fn from_items(items: &[Item]) -> Data {
+        let mut d = Data::default();
+        for i in items {
+            d.announce(i.clone().canonical());
+        }
+        d
+    }
+    pub fn announce(&mut self, item: Item) {
+        match item {
+            Item::Aspa { customer, providers } => {
+                self.aspas.insert(customer, providers);
+            }
+            other => {
+                self.set.insert(other);
+            }
+        }
+    }
+    pub fn withdraw(&mut self, item: &Item) {
+        match item {
+            Item::Aspa { customer, .. } => {
+                self.aspas.remove(customer);
+            }
+            other => {
+                self.set.remove(other);
+            }
+        }
+    }
+    pub fn restricted(&self, version: u8) -> Data {
+        Data {
+            set: self.set.iter().filter(|i| i.min_version() <= version).cloned().collect(),
+            aspas: if version >= 2 { self.aspas.clone() } else { BTreeMap::new() },
+        }
+    }
+    pub fn items(&self) -> Vec<Item> {
+        let mut v: Vec<Item> = self.set.iter().cloned().collect();
+        v.extend(self.aspas.iter().map(|(c, p)| Item::Aspa { customer: *c, providers: p.clone() }));
+        v
+    }
+    pub fn len(&self) -> usize {
+        self.set.len() + self.aspas.len()
+    }
+    pub fn is_empty(&self) -> bool {
+        self.len() == 0
+    }
+    /// Minimal list of (item, announce) turning `self` into `new`.
+    pub fn diff_to(&self, new: &Data) -> Vec<(Item, bool)> {
+        let mut d = Vec::new();
+        for i in self.set.difference(&new.set) {
+            d.push((i.clone(), false));
+        }
+        for (c, p) in &self.aspas {
+            if !new.aspas.contains_key(c) {
+                d.push((Item::Aspa { customer: *c, providers: p.clone() }, false));
+            }
+        }
+        for i in new.set.difference(&self.set) {
+            d.push((i.clone(), true));
+        }
+        for (c, p) in &new.aspas {
+            if self.aspas.get(c) != Some(p) {
+                d.push((Item::Aspa { customer: *c, providers: p.clone() }, true));
+            }
+        }
+        d
+    }
+}
+
+//------------ Delta ----------------------------------------------------------
+
+#[derive(Clone, Debug, Serialize, Deserialize)]
+pub enum Delta {
+    Add(Item),
+    /// Removes the `pick_idx(raw, n)`-th item of the current set.
+    Remove(u16),
+    /// Replaces the providers of the picked ASPA (no-op without ASPAs).
+    ReplaceProviders(u16, Vec<u32>),
+    Clear,
+    Bulk(Vec<Item>),
+}
+
+pub fn apply_delta(data: &mut Data, d: &Delta) {
+    match d {
+        Delta::Add(i) => data.announce(i.clone().canonical()),
+        Delta::Remove(raw) => {
+            let items = data.items();
+            if !items.is_empty() {
+                let it = items[pick_idx(*raw, items.len())].clone();
+                data.withdraw(&it);
+            }
+        }
+        Delta::ReplaceProviders(raw, provs) => {
+            let keys: Vec<u32> = data.aspas.keys().copied().collect();
+            if !keys.is_empty() {
+                let c = keys[pick_idx(*raw, keys.len())];
+                data.announce(Item::Aspa { customer: c, providers: provs.clone() }.canonical());
+            }
+        }
+        Delta::Clear => *data = Data::default(),
+        Delta::Bulk(items) => {
+            for i in items {
+                data.announce(i.clone().canonical());
+            }
+        }
+    }
+}
+
+//------------ RefSource ------------------------------------------------------
+
+#[derive(Clone, Debug)]
+pub struct Snapshot {
+    pub serial: u32,
+    pub data: Data,
+}
+
+#[derive(Clone, Debug, Default)]
+pub struct SourceStats {
+    pub full: u32,
+    pub diff_some: u32,
+    pub diff_none: u32,
+    pub fired: u32,
+    pub notify: u32,
+}
+
+pub struct SourceInner {
+    pub session: u16,
+    pub ready: bool,
+    pub history: Vec<Snapshot>,
+    pub retention: usize,
+    pub timing: Tm,
+    pub flip: bool,
+    pub armed: Option<(usize, Vec<Delta>)>,
+    pub stats: SourceStats,
+}
+
+impl SourceInner {
+    fn push_update(&mut self, deltas: &[Delta]) {
+        let cur = self.history.last().expect("history never empty");
+        let mut data = cur.data.clone();
+        for d in deltas {
+            apply_delta(&mut data, d);
+        }
+        let serial = cur.serial.wrapping_add(1);
+        self.history.push(Snapshot { serial, data });
+    }
+    fn state(&self) -> State {
+        State::from_parts(self.session, Serial(self.history.last().unwrap().serial))
+    }
+}
+
+#[derive(Clone)]
+pub struct RefSource(pub Arc<Mutex<SourceInner>>);
+
+impl RefSource {
+    pub fn new(session: u16, start_serial: u32, data: Data, retention: usize, timing: Tm) -> Self {
+        RefSource(Arc::new(Mutex::new(SourceInner {
+            session,
+            ready: true,
+            history: vec![Snapshot { serial: start_serial, data }],
+            retention,
+            timing,
+            flip: false,
+            armed: None,
+            stats: SourceStats::default(),
+        })))
+    }
+    pub fn update(&self, deltas: &[Delta], timing: Option<Tm>) {
+        let mut s = self.0.lock().unwrap();
+        s.push_update(deltas);
+        if let Some(t) = timing {
+            s.timing = t;
+        }
+    }
+    pub fn arm(&self, at: usize, deltas: Vec<Delta>) {
+        self.0.lock().unwrap().armed = Some((at, deltas));
+    }
+    /// Applies a still-armed mid-response update now. Returns whether one was armed.
+    pub fn fire_armed(&self) -> bool {
+        let mut s = self.0.lock().unwrap();
+        match s.armed.take() {
+            Some((_, d)) => {
+                s.push_update(&d);
+                s.stats.fired += 1;
+                true
+            }
+            None => false,
+        }
+    }
+    pub fn set_ready(&self, ready: bool) {
+        self.0.lock().unwrap().ready = ready;
+    }
+    pub fn set_flip(&self, flip: bool) {
+        self.0.lock().unwrap().flip = flip;
+    }
+    pub fn session(&self) -> u16 {
+        self.0.lock().unwrap().session
+    }
+    pub fn timing_now(&self) -> Tm {
+        self.0.lock().unwrap().timing
+    }
+    pub fn current(&self) -> Snapshot {
+        self.0.lock().unwrap().history.last().unwrap().clone()
+    }
+    pub fn snapshot_at(&self, serial: u32) -> Option<Snapshot> {
+        self.0.lock().unwrap().history.iter().rev().find(|s| s.serial == serial).cloned()
+    }
+    /// The snapshot `n` updates before the current one.
+    pub fn back(&self, n: usize) -> Option<Snapshot> {
+        let s = self.0.lock().unwrap();
+        let l = s.history.len();
+        if n < l { Some(s.history[l - 1 - n].clone()) } else { None }
+    }
+    pub fn history_len(&self) -> usize {
+        self.0.lock().unwrap().history.len()
+    }
+    pub fn stats(&self) -> SourceStats {
+        self.0.lock().unwrap().stats.clone()
+    }
+    /// Whether `diff` would answer for this (session, serial).
+    pub fn diff_available(&self, session: u16, serial: u32) -> bool {
+        let s = self.0.lock().unwrap();
+        s.session == session && s.history.iter().rev().take(s.retention + 1).any(|x| x.serial == serial)
+    }
+}
+
+pub struct RefSet {
+    items: Vec<Payload>,
+    idx: usize,
+    hook: Option<(usize, RefSource)>,
+}
+
+pub struct RefDiff {
+    items: Vec<(Payload, Action)>,
+    idx: usize,
+    hook: Option<(usize, RefSource)>,
+}
+
+fn run_hook(hook: &mut Option<(usize, RefSource)>, idx: usize, len: usize) {
+    if let Some((at, _)) = hook {
+        if idx >= *at || idx >= len {
+            let (_, src) = hook.take().unwrap();
+            src.fire_armed();
+        }
+    }
+}
+
+impl PayloadSet for RefSet {
+    fn next(&mut self) -> Option<PayloadRef<'_>> {
+        run_hook(&mut self.hook, self.idx, self.items.len());
+        let r = self.items.get(self.idx).map(|p| p.as_ref());
+        self.idx += 1;
+        r
+    }
+}
+
+impl PayloadDiff for RefDiff {
+    fn next(&mut self) -> Option<(PayloadRef<'_>, Action)> {
+        run_hook(&mut self.hook, self.idx, self.items.len());
+        let r = self.items.get(self.idx).map(|(p, a)| (p.as_ref(), *a));
+        self.idx += 1;
+        r
+    }
+}
+
+impl PayloadSource for RefSource {
+    type Set = RefSet;
+    type Diff = RefDiff;
+
+    fn ready(&self) -> bool {
+        self.0.lock().unwrap().ready
+    }
+    fn notify(&self) -> State {
+        let mut s = self.0.lock().unwrap();
+        s.stats.notify += 1;
+        s.state()
+    }
+    fn full(&self) -> (State, RefSet) {
+        let mut s = self.0.lock().unwrap();
+        s.stats.full += 1;
+        let mut items: Vec<Payload> = s.history.last().unwrap().data.items().iter().map(|i| i.to_payload()).collect();
+        if s.flip {
+            items.reverse();
+        }
+        let hook = s.armed.as_ref().map(|(at, _)| (*at, self.clone()));
+        (s.state(), RefSet { items, idx: 0, hook })
+    }
+    fn diff(&self, state: State) -> Option<(State, RefDiff)> {
+        let mut s = self.0.lock().unwrap();
+        let serial = u32::from(state.serial());
+        let old = if state.session() == s.session {
+            s.history.iter().rev().take(s.retention + 1).find(|x| x.serial == serial).cloned()
+        } else {
+            None
+        };
+        let Some(old) = old else {
+            s.stats.diff_none += 1;
+            return None;
+        };
+        s.stats.diff_some += 1;
+        let mut items: Vec<(Payload, Action)> = old
+            .data
+            .diff_to(&s.history.last().unwrap().data)
+            .into_iter()
+            .map(|(i, ann)| (i.to_payload(), if ann { Action::Announce } else { Action::Withdraw }))
+            .collect();
+        if s.flip {
+            // keep withdraw-before-announce per item irrelevant: items are distinct
+            items.reverse();
+        }
+        let hook = s.armed.as_ref().map(|(at, _)| (*at, self.clone()));
+        Some((s.state(), RefDiff { items, idx: 0, hook }))
+    }
+    fn timing(&self) -> Timing {
+        let t = self.0.lock().unwrap().timing;
+        Timing { refresh: t.0, retry: t.1, expire: t.2 }
+    }
+}
+
+//------------ RecTarget ------------------------------------------------------
+
+#[derive(Clone, Debug)]
+pub struct ApplyRec {
+    pub reset: bool,
+    pub items: Vec<(bool, Item)>,
+    pub timing: Tm,
+}
+
+pub struct RecUpdate {
+    reset: bool,
+    items: Vec<(bool, Item)>,
+}
+
+impl PayloadUpdate for RecUpdate {
+    fn push_update(&mut self, action: Action, payload: Payload) -> Result<(), PayloadError> {
+        self.items.push((action.is_announce(), Item::from_payload(&payload)));
+        Ok(())
+    }
+}
+
+#[derive(Default)]
+pub struct RecTarget {
+    pub log: Vec<ApplyRec>,
+    /// `reset` argument of every `start` call.
+    pub starts: Vec<bool>,
+}
+
+impl PayloadTarget for RecTarget {
+    type Update = RecUpdate;
+    fn start(&mut self, reset: bool) -> RecUpdate {
+        self.starts.push(reset);
+        RecUpdate { reset, items: Vec::new() }
+    }
+    fn apply(&mut self, update: RecUpdate, timing: Timing) -> Result<(), PayloadError> {
+        self.log.push(ApplyRec {
+            reset: update.reset,
+            items: update.items,
+            timing: (timing.refresh, timing.retry, timing.expire),
+        });
+        Ok(())
+    }
+}
+
+/// Replays one recorded `apply` onto the model of the client's data.
+pub fn apply_rec(data: &mut Data, rec: &ApplyRec) {
+    if rec.reset {
+        *data = Data::default();
+    }
+    for (announce, item) in &rec.items {
+        if *announce {
+            data.announce(item.clone());
+        } else {
+            data.withdraw(item);
+        }
+    }
+}
+
+//------------ in-memory sockets ------------------------------------------------
+
+#[derive(Default)]
+struct Dir {
+    q: VecDeque<u8>,
+    cap: usize,
+    /// The writing end is gone (or the harness closed the direction).
+    eof: bool,
+    /// The reading end is gone.
+    reader_gone: bool,
+    rwaker: Option<Waker>,
+    wwaker: Option<Waker>,
+    /// The last read attempt found the queue empty and parked.
+    read_parked: bool,
+    /// The last write attempt found the queue full and parked.
+    write_parked: bool,
+    consumed: u64,
+    written: u64,
+    reads: Vec<(u64, u32, u32)>,
+}
+
+#[derive(Default)]
+struct Chan {
+    /// dirs[0]: towards the server end; dirs[1]: towards the client end.
+    dirs: [Dir; 2],
+    ops: u64,
+    budget: Option<u64>,
+    exhausted: bool,
+    updates: Vec<(u16, u32, bool)>,
+}
+
+impl Chan {
+    fn op(&mut self) -> io::Result<()> {
+        self.ops += 1;
+        if let Some(b) = self.budget.as_mut() {
+            if *b == 0 {
+                self.exhausted = true;
+                return Err(io::Error::other("rtrsim: socket operation budget exhausted"));
+            }
+            *b -= 1;
+        }
+        Ok(())
+    }
+}
+
+/// One end of an in-memory connection. Side 0 is the server end.
+pub struct MemEnd {
+    chan: Arc<Mutex<Chan>>,
+    side: usize,
+}
+
+#[derive(Clone)]
+pub struct MemCtl {
+    chan: Arc<Mutex<Chan>>,
+}
+
+/// Returns (server end, client end, control handle).
+pub fn mem_pair(cap_to_server: usize, cap_to_client: usize) -> (MemEnd, MemEnd, MemCtl) {
+    let mut c = Chan::default();
+    c.dirs[0].cap = cap_to_server.max(1);
+    c.dirs[1].cap = cap_to_client.max(1);
+    let chan = Arc::new(Mutex::new(c));
+    (MemEnd { chan: chan.clone(), side: 0 }, MemEnd { chan: chan.clone(), side: 1 }, MemCtl { chan })
+}
+
+impl AsyncRead for MemEnd {
+    fn poll_read(self: Pin<&mut Self>, cx: &mut Context<'_>, buf: &mut ReadBuf<'_>) -> Poll<io::Result<()>> {
+        let mut c = self.chan.lock().unwrap();
+        if let Err(e) = c.op() {
+            return Poll::Ready(Err(e));
+        }
+        let d = &mut c.dirs[self.side];
+        if !d.q.is_empty() {
+            let want = buf.remaining();
+            let n = want.min(d.q.len());
+            let off = d.consumed;
+            for _ in 0..n {
+                let b = d.q.pop_front().unwrap();
+                buf.put_slice(&[b]);
+            }
+            d.consumed += n as u64;
+            d.read_parked = false;
+            d.reads.push((off, want as u32, n as u32));
+            if let Some(w) = d.wwaker.take() {
+                w.wake();
+            }
+            Poll::Ready(Ok(()))
+        } else if d.eof {
+            d.read_parked = false;
+            Poll::Ready(Ok(()))
+        } else {
+            d.rwaker = Some(cx.waker().clone());
+            d.read_parked = true;
+            Poll::Pending
+        }
+    }
+}
+
+impl AsyncWrite for MemEnd {
+    fn poll_write(self: Pin<&mut Self>, cx: &mut Context<'_>, buf: &[u8]) -> Poll<io::Result<usize>> {
+        let mut c = self.chan.lock().unwrap();
+        if let Err(e) = c.op() {
+            return Poll::Ready(Err(e));
+        }
+        let d = &mut c.dirs[1 - self.side];
+        if d.reader_gone {
+            return Poll::Ready(Err(io::Error::new(io::ErrorKind::BrokenPipe, "rtrsim: peer gone")));
+        }
+        if buf.is_empty() {
+            return Poll::Ready(Ok(0));
+        }
+        let free = d.cap.saturating_sub(d.q.len());
+        if free == 0 {
+            d.wwaker = Some(cx.waker().clone());
+            d.write_parked = true;
+            return Poll::Pending;
+        }
+        d.write_parked = false;
+        let n = free.min(buf.len());
+        d.q.extend(buf[..n].iter().copied());
+        d.written += n as u64;
+        if let Some(w) = d.rwaker.take() {
+            w.wake();
+        }
+        Poll::Ready(Ok(n))
+    }
+    fn poll_flush(self: Pin<&mut Self>, _: &mut Context<'_>) -> Poll<io::Result<()>> {
+        Poll::Ready(Ok(()))
+    }
+    fn poll_shutdown(self: Pin<&mut Self>, _: &mut Context<'_>) -> Poll<io::Result<()>> {
+        Poll::Ready(Ok(()))
+    }
+}
+
+impl Socket for MemEnd {
+    fn update(&self, state: State, reset: bool) {
+        self.chan.lock().unwrap().updates.push((state.session(), u32::from(state.serial()), reset));
+    }
+}
+
+impl Drop for MemEnd {
+    fn drop(&mut self) {
+        let mut c = self.chan.lock().unwrap();
+        let out = &mut c.dirs[1 - self.side];
+        out.eof = true;
+        if let Some(w) = out.rwaker.take() {
+            w.wake();
+        }
+        let inp = &mut c.dirs[self.side];
+        inp.reader_gone = true;
+        inp.read_parked = false;
+        if let Some(w) = inp.wwaker.take() {
+            w.wake();
+        }
+    }
+}
+
+impl MemCtl {
+    /// Delivers one chunk towards the server end (capacity is not applied).
+    pub fn feed(&self, data: &[u8]) {
+        let mut c = self.chan.lock().unwrap();
+        let d = &mut c.dirs[0];
+        d.q.extend(data.iter().copied());
+        d.written += data.len() as u64;
+        if !data.is_empty() {
+            if let Some(w) = d.rwaker.take() {
+                w.wake();
+            }
+        }
+    }
+    /// Signals end of stream towards the server end.
+    pub fn close_to_server(&self) {
+        let mut c = self.chan.lock().unwrap();
+        let d = &mut c.dirs[0];
+        d.eof = true;
+        if let Some(w) = d.rwaker.take() {
+            w.wake();
+        }
+    }
+    /// Drains what the server wrote so far.
+    pub fn take_output(&self) -> Vec<u8> {
+        let mut c = self.chan.lock().unwrap();
+        let d = &mut c.dirs[1];
+        let v: Vec<u8> = d.q.drain(..).collect();
+        if let Some(w) = d.wwaker.take() {
+            w.wake();
+        }
+        v
+    }
+    /// Copy of the bytes waiting for the client end.
+    pub fn pending_to_client(&self) -> Vec<u8> {
+        self.chan.lock().unwrap().dirs[1].q.iter().copied().collect()
+    }
+    pub fn consumed_by_server(&self) -> u64 {
+        self.chan.lock().unwrap().dirs[0].consumed
+    }
+    pub fn server_reads(&self) -> Vec<(u64, u32, u32)> {
+        self.chan.lock().unwrap().dirs[0].reads.clone()
+    }
+    pub fn ops(&self) -> u64 {
+        self.chan.lock().unwrap().ops
+    }
+    pub fn set_budget(&self, n: u64) {
+        self.chan.lock().unwrap().budget = Some(n);
+    }
+    pub fn exhausted(&self) -> bool {
+        self.chan.lock().unwrap().exhausted
+    }
+    pub fn updates(&self) -> Vec<(u16, u32, bool)> {
+        self.chan.lock().unwrap().updates.clone()
+    }
+    /// The server end is gone.
+    pub fn server_gone(&self) -> bool {
+        self.chan.lock().unwrap().dirs[0].reader_gone
+    }
+    /// The server end is parked reading an empty queue, parked writing into
+    /// a full queue, or gone.
+    pub fn server_idle(&self) -> bool {
+        let c = self.chan.lock().unwrap();
+        let d = &c.dirs[0];
+        let w = &c.dirs[1];
+        d.reader_gone || (d.read_parked && d.q.is_empty()) || (w.write_parked && w.q.len() >= w.cap)
+    }
+}
+
+/// Yields until the server connection task is parked on an empty socket (or
+/// gone) and two consecutive scheduler turns passed without socket activity.
+pub async fn settle(ctl: &MemCtl, max_turns: u32) -> Result<u32, String> {
+    let mut quiet = 0;
+    let mut turns = 0;
+    loop {
+        let before = ctl.ops();
+        tokio::task::yield_now().await;
+        turns += 1;
+        if ctl.ops() == before && ctl.server_idle() {
+            quiet += 1;
+            if quiet >= 2 {
+                return Ok(turns);
+            }
+        } else {
+            quiet = 0;
+        }
+        if turns >= max_turns {
+            return Err(format!("connection task did not settle within {} scheduler turns", max_turns));
+        }
+    }
+}
+
+/// Runs `fut` on a fresh current-thread runtime.
+pub fn block_on<F: Future>(paused: bool, fut: F) -> F::Output {
+    let rt = tokio::runtime::Builder::new_current_thread()
+        .enable_time()
+        .start_paused(paused)
+        .build()
+        .expect("tokio runtime");
+    rt.block_on(fut)
+}
+
+//------------ CapSock ----------------------------------------------------------
+
+#[derive(Clone, Debug, Default)]
+pub struct CapInfo {
+    /// (version, pdu type) of every complete PDU the client wrote.
+    pub written: Vec<(u8, u8)>,
+    /// Version of the last query passed on to the server.
+    pub last_forwarded_version: Option<u8>,
+    pub intercepted: u32,
+}
+
+/// Client-side wrapper: records queries and caps the protocol version.
+pub struct CapSock<S> {
+    inner: S,
+    cap: u8,
+    wbuf: Vec<u8>,
+    fwd: VecDeque<u8>,
+    local: VecDeque<u8>,
+    pub info: Arc<Mutex<CapInfo>>,
+}
+
+impl<S> CapSock<S> {
+    pub fn new(inner: S, cap: u8) -> Self {
+        CapSock { inner, cap, wbuf: Vec::new(), fwd: VecDeque::new(), local: VecDeque::new(), info: Default::default() }
+    }
+}
+
+impl<S: AsyncWrite + Unpin> CapSock<S> {
+    fn drain(&mut self, cx: &mut Context<'_>) -> Poll<io::Result<()>> {
+        while !self.fwd.is_empty() {
+            let (a, _) = self.fwd.as_slices();
+            let a = a.to_vec();
+            match Pin::new(&mut self.inner).poll_write(cx, &a) {
+                Poll::Ready(Ok(0)) => return Poll::Ready(Err(io::ErrorKind::WriteZero.into())),
+                Poll::Ready(Ok(n)) => {
+                    self.fwd.drain(..n);
+                }
+                Poll::Ready(Err(e)) => return Poll::Ready(Err(e)),
+                Poll::Pending => return Poll::Pending,
+            }
+        }
+        Poll::Ready(Ok(()))
+    }
+}
+
+impl<S: AsyncRead + AsyncWrite + Unpin> AsyncRead for CapSock<S> {
+    fn poll_read(mut self: Pin<&mut Self>, cx: &mut Context<'_>, buf: &mut ReadBuf<'_>) -> Poll<io::Result<()>> {
+        if let Poll::Ready(Err(e)) = self.drain(cx) {
+            return Poll::Ready(Err(e));
+        }
+        if !self.local.is_empty() {
+            let n = buf.remaining().min(self.local.len());
+            let v: Vec<u8> = self.local.drain(..n).collect();
+            buf.put_slice(&v);
+            return Poll::Ready(Ok(()));
+        }
+        Pin::new(&mut self.inner).poll_read(cx, buf)
+    }
+}
+
+impl<S: AsyncWrite + Unpin> AsyncWrite for CapSock<S> {
+    fn poll_write(mut self: Pin<&mut Self>, cx: &mut Context<'_>, buf: &[u8]) -> Poll<io::Result<usize>> {
+        self.wbuf.extend_from_slice(buf);
+        loop {
+            if self.wbuf.len() < 8 {
+                break;
+            }
+            let len = u32::from_be_bytes([self.wbuf[4], self.wbuf[5], self.wbuf[6], self.wbuf[7]]) as usize;
+            let len = len.max(8);
+            if self.wbuf.len() < len {
+                break;
+            }
+            let pdu: Vec<u8> = self.wbuf.drain(..len).collect();
+            let (version, typ) = (pdu[0], pdu[1]);
+            let mut info = self.info.lock().unwrap();
+            info.written.push((version, typ));
+            if (typ == 1 || typ == 2) && version > self.cap {
+                info.intercepted += 1;
+                drop(info);
+                let cap = self.cap;
+                self.local.extend(enc_error(cap, 4, &pdu, b"unsupported protocol version"));
+            } else {
+                if typ == 1 || typ == 2 {
+                    info.last_forwarded_version = Some(version);
+                }
+                drop(info);
+                self.fwd.extend(pdu);
+            }
+        }
+        if let Poll::Ready(Err(e)) = self.drain(cx) {
+            return Poll::Ready(Err(e));
+        }
+        Poll::Ready(Ok(buf.len()))
+    }
+    fn poll_flush(mut self: Pin<&mut Self>, cx: &mut Context<'_>) -> Poll<io::Result<()>> {
+        match self.drain(cx) {
+            Poll::Ready(Ok(())) => Pin::new(&mut self.inner).poll_flush(cx),
+            other => other,
+        }
+    }
+    fn poll_shutdown(mut self: Pin<&mut Self>, cx: &mut Context<'_>) -> Poll<io::Result<()>> {
+        Pin::new(&mut self.inner).poll_shutdown(cx)
+    }
+}
+
+//------------ independent wire code ----------------------------------------------
+
+pub fn enc_header(version: u8, typ: u8, field: u16, len: u32) -> Vec<u8> {
+    let mut v = vec![version, typ];
+    v.extend_from_slice(&field.to_be_bytes());
+    v.extend_from_slice(&len.to_be_bytes());
+    v
+}
+
+pub fn enc_serial_query(version: u8, session: u16, serial: u32) -> Vec<u8> {
+    let mut v = enc_header(version, 1, session, 12);
+    v.extend_from_slice(&serial.to_be_bytes());
+    v
+}
+
+pub fn enc_reset_query(version: u8) -> Vec<u8> {
+    enc_header(version, 2, 0, 8)
+}
+
+pub fn enc_error(version: u8, code: u16, pdu: &[u8], text: &[u8]) -> Vec<u8> {
+    let mut v = enc_header(version, 10, code, (16 + pdu.len() + text.len()) as u32);
+    v.extend_from_slice(&(pdu.len() as u32).to_be_bytes());
+    v.extend_from_slice(pdu);
+    v.extend_from_slice(&(text.len() as u32).to_be_bytes());
+    v.extend_from_slice(text);
+    v
+}
+
+/// One PDU as found on the wire: header fields and the bytes after the header.
+#[derive(Clone, Debug, PartialEq, Eq)]
+pub struct RawPdu {
+    pub version: u8,
+    pub typ: u8,
+    /// Session id / error code / flags+zero, depending on the type.
+    pub field: u16,
+    pub body: Vec<u8>,
+}
+
+fn be32(b: &[u8]) -> u32 {
+    u32::from_be_bytes([b[0], b[1], b[2], b[3]])
+}
+
+/// Splits a byte string a *server* wrote into PDUs; checks every length rule
+/// of the PDU types a cache may send (RFC 8210 section 5, 8210bis ASPA PDU).
+pub fn parse_pdus(mut b: &[u8]) -> Result<Vec<RawPdu>, String> {
+    let mut out = Vec::new();
+    let mut off = 0usize;
+    while !b.is_empty() {
+        if b.len() < 8 {
+            return Err(format!("{} stray bytes at offset {} (less than a header)", b.len(), off));
+        }
+        let (version, typ) = (b[0], b[1]);
+        let field = u16::from_be_bytes([b[2], b[3]]);
+        let len = be32(&b[4..8]) as usize;
+        if len < 8 || len > b.len() {
+            return Err(format!("PDU type {} at offset {} announces length {} but {} bytes remain", typ, off, len, b.len()));
+        }
+        let body = &b[8..len];
+        let ok = match typ {
+            0 => len == 12,
+            3 | 8 => len == 8,
+            4 => len == 20,
+            6 => len == 32,
+            7 => len == if version == 0 { 12 } else { 24 },
+            9 => len >= 32,
+            11 => len >= 12 && (len - 12) % 4 == 0,
+            10 => {
+                len >= 16 && {
+                    let pl = be32(&body[0..4]) as usize;
+                    pl <= len - 16 && {
+                        let tl = be32(&body[4 + pl..8 + pl]) as usize;
+                        16 + pl + tl == len
+                    }
+                }
+            }
+            _ => return Err(format!("PDU type {} at offset {} is not one a cache sends", typ, off)),
+        };
+        if !ok {
+            return Err(format!("PDU type {} version {} at offset {} has invalid length {}", typ, version, off, len));
+        }
+        out.push(RawPdu { version, typ, field, body: body.to_vec() });
+        b = &b[len..];
+        off += len;
+    }
+    Ok(out)
+}
+
+impl RawPdu {
+    /// (announce, item) of an IPv4/IPv6 prefix, router key or ASPA PDU.
+    pub fn payload_item(&self) -> Option<(bool, Item)> {
+        let b = &self.body;
+        match self.typ {
+            4 => Some((b[0] & 1 == 1, Item::V4 { len: b[1], max: b[2], addr: be32(&b[4..8]), asn: be32(&b[8..12]) })),
+            6 => {
+                let hi = u64::from_be_bytes(b[4..12].try_into().unwrap());
+                let lo = u64::from_be_bytes(b[12..20].try_into().unwrap());
+                Some((b[0] & 1 == 1, Item::V6 { len: b[1], max: b[2], hi, lo, asn: be32(&b[20..24]) }))
+            }
+            9 => {
+                let mut ski = [0u8; 20];
+                ski.copy_from_slice(&b[0..20]);
+                Some(((self.field >> 8) & 1 == 1, Item::Key { ski, asn: be32(&b[20..24]), info: b[24..].to_vec() }))
+            }
+            11 => {
+                let providers = b[4..].chunks(4).map(be32).collect();
+                Some(((self.field >> 8) & 1 == 1, Item::Aspa { customer: be32(&b[0..4]), providers }))
+            }
+            _ => None,
+        }
+    }
+    /// Serial of a Serial Notify or End of Data PDU.
+    pub fn serial(&self) -> Option<u32> {
+        match self.typ {
+            0 | 7 => Some(be32(&self.body[0..4])),
+            _ => None,
+        }
+    }
+    /// Timing of an End of Data PDU of version >= 1.
+    pub fn timing(&self) -> Option<Tm> {
+        if self.typ == 7 && self.body.len() == 16 {
+            Some((be32(&self.body[4..8]), be32(&self.body[8..12]), be32(&self.body[12..16])))
+        } else {
+            None
+        }
+    }
+    /// (code, encapsulated PDU, text) of an Error Report.
+    pub fn error(&self) -> Option<(u16, Vec<u8>, Vec<u8>)> {
+        if self.typ != 10 {
+            return None;
+        }
+        let pl = be32(&self.body[0..4]) as usize;
+        Some((self.field, self.body[4..4 + pl].to_vec(), self.body[8 + pl..].to_vec()))
+    }
+}
+
+//------------ shared strategies --------------------------------------------------
+
+pub mod strat {
+    use super::{Delta, Item, Tm};
+    use crate::gen::dense_u32;
+    use proptest::prelude::*;
+
+    fn asn() -> BoxedStrategy<u32> {
+        prop_oneof![6 => prop::sample::select(vec![0u32, 1, 2, 64496, 65551, u32::MAX]), 1 => dense_u32()].boxed()
+    }
+
+    /// Items from a small universe (so that add/remove/replace collide) with a
+    /// tail of boundary-dense values. Always canonical.
+    pub fn item() -> BoxedStrategy<Item> {
+        let v4 = (
+            prop_oneof![5 => prop::sample::select(vec![0x0A00_0000u32, 0x0A01_0000, 0xC0A8_0000, 0, u32::MAX]), 1 => dense_u32()],
+            prop_oneof![5 => prop::sample::select(vec![0u8, 8, 16, 24, 32]), 1 => 0u8..=32],
+            prop::sample::select(vec![0u8, 0, 1, 8, 32]),
+            asn(),
+        )
+            .prop_map(|(addr, len, extra, asn)| Item::V4 { addr, len, max: len.saturating_add(extra), asn }.canonical());
+        let v6 = (
+            prop::sample::select(vec![0x2001_0db8_0000_0000u64, 0x2001_0db8_ffff_0000, 0, u64::MAX, 0xfe80_0000_0000_0000]),
+            prop::sample::select(vec![0u64, 1, u64::MAX]),
+            prop_oneof![5 => prop::sample::select(vec![0u8, 32, 48, 64, 128]), 1 => 0u8..=128],
+            prop::sample::select(vec![0u8, 0, 1, 16, 128]),
+            asn(),
+        )
+            .prop_map(|(hi, lo, len, extra, asn)| Item::V6 { hi, lo, len, max: len.saturating_add(extra), asn }.canonical());
+        let key = (
+            0u8..3,
+            asn(),
+            prop_oneof![
+                3 => Just(vec![0x30u8]),
+                3 => prop::collection::vec(any::<u8>(), 1..6),
+                1 => prop::collection::vec(any::<u8>(), 91..=91),
+            ],
+        )
+            .prop_map(|(k, asn, info)| Item::Key { ski: [k.wrapping_mul(0x55) ^ 0xA0; 20], asn, info }.canonical());
+        let aspa = (prop::sample::select(vec![1u32, 2, 64496, u32::MAX]), prop::collection::vec(asn(), 0..4))
+            .prop_map(|(customer, providers)| Item::Aspa { customer, providers }.canonical());
+        prop_oneof![3 => v4, 2 => v6, 2 => key, 2 => aspa].boxed()
+    }
+
+    pub fn delta() -> BoxedStrategy<Delta> {
+        prop_oneof![
+            5 => item().prop_map(Delta::Add),
+            4 => any::<u16>().prop_map(Delta::Remove),
+            2 => (any::<u16>(), prop::collection::vec(asn(), 0..4)).prop_map(|(r, p)| Delta::ReplaceProviders(r, p)),
+            1 => Just(Delta::Clear),
+            1 => prop::collection::vec(item(), 2..12).prop_map(Delta::Bulk),
+        ]
+        .boxed()
+    }
+
+    /// Timing values inside the ranges of RFC 8210 section 6.
+    pub fn timing() -> BoxedStrategy<Tm> {
+        (
+            prop_oneof![2 => prop::sample::select(vec![1u32, 2, 3600, 86400]), 1 => 1u32..=86400],
+            prop_oneof![2 => prop::sample::select(vec![1u32, 600, 7200]), 1 => 1u32..=7200],
+            prop_oneof![2 => prop::sample::select(vec![600u32, 7200, 172800]), 1 => 600u32..=172800],
+        )
+            .boxed()
+    }
+}
